@@ -267,7 +267,10 @@ def main(tier):
             # no -coverage: TLC switches off the caching of lazily evaluated LET values under
             # coverage, which makes the recursive evaluator exponential; non-vacuity is read from
             # the output
-            outs.append((base, run_tlc("Expr", CFG, env={"CASES": path, "MACHINE": machine}, coverage=False, timeout=3000)))
+            env = {"CASES": path, "MACHINE": machine}
+            if tier == "quick":  # short run: the C1 compiler alone warms up faster (about -25 % CPU)
+                env["JAVA_TOOL_OPTIONS"] = "-XX:TieredStopAtLevel=1"
+            outs.append((base, run_tlc("Expr", CFG, env=env, coverage=False, timeout=3000)))
         return outs
 
     scratch()  # create the scratch directory in the main thread
